@@ -10,6 +10,7 @@ The copied harness's path dependencies are rewritten to the copied repo.
 """
 import os, subprocess, sys
 W = "/tmp/mut"
+SRC = "/verif"
 def sh(cmd, cwd=None, check=True, quiet=False):
     r = subprocess.run(cmd, cwd=cwd, shell=isinstance(cmd, str), capture_output=True, text=True)
     if check and r.returncode != 0:
@@ -25,6 +26,8 @@ while i < len(args):
     elif a == "--none": pass
     elif a == "--tests": tests = True
     elif a == "--tier": tier = args[i+1]; i += 1
+    elif a == "--work": W = args[i+1]; i += 1
+    elif a == "--verif": SRC = args[i+1].rstrip("/"); i += 1
     else: props.append(a)
     i += 1
 os.makedirs(W, exist_ok=True)
@@ -39,7 +42,7 @@ if revert:
     if r.returncode != 0:
         print("REVERT FAILED:", r.stderr[-1500:]); sys.exit(3)
 print(sh("git status --short | head -20", cwd=f"{W}/repo").stdout)
-sh(f"rsync -a --delete --exclude /harness/target/cli --exclude /logs --exclude /replays --exclude /evidence --exclude /.git /verif/ {W}/verif/")
+sh(f"rsync -a --delete --exclude /harness/target/cli --exclude /logs --exclude /replays --exclude /evidence --exclude /.git {SRC}/ {W}/verif/")
 for f in [f"{W}/verif/harness/Cargo.toml", f"{W}/verif/harness-wasm/Cargo.toml", f"{W}/verif/harness-wasm/src/main.rs"]:
     if os.path.exists(f):
         s = open(f).read().replace('path = "/repo/', f'path = "{W}/repo/')
